@@ -84,6 +84,28 @@ Theorem progress : forall resp n f s, reach resp (init n f) s -> ~ all_exited s 
 Proof. exact progress_proof. Qed.
 Print Assumptions progress.
 
+(* 6b. the same, per worker -- the two facts a fairness argument needs:
+      (i) EVERY live worker that is outside the idle wait loop has its next step enabled and that step
+          decreases the measure;
+      (ii) when every live worker is inside the wait loop, EVERY live worker, running alone, decreases the
+          measure after at most one turn of its idle loop (a Quit lies in an exited worker's deque and idle
+          turns change no shared state, so this stays true until somebody makes a non-idle step).
+      With `variant`/`busy_steps_bounded`: a schedule that keeps scheduling every live worker and does not fail
+      steals on non-empty deques forever makes a non-idle step again and again, at most mu(init) times, and
+      then all workers have exited. *)
+Theorem progress_busy : forall resp n f s w p, reach resp (init n f) s ->
+  nth_error (pcs s) w = Some p -> is_exit p = false -> in_wait_loop p = false ->
+  exists s', step resp s (Own w) = Some s' /\ mu s' < mu s.
+Proof. exact progress_busy_proof. Qed.
+Print Assumptions progress_busy.
+
+Theorem progress_idle : forall resp n f s w p, reach resp (init n f) s ->
+  (forall q, In q (pcs s) -> is_exit q = true \/ in_wait_loop q = true) ->
+  nth_error (pcs s) w = Some p -> is_exit p = false ->
+  exists cs s', Forall (fun c => worker_of c = w) cs /\ run resp s cs = Some s' /\ mu s' < mu s.
+Proof. exact progress_idle_proof. Qed.
+Print Assumptions progress_idle.
+
 (* 7. hence from every reachable state the walk can still be completed: all workers exit *)
 Theorem can_always_finish : forall resp n f s, reach resp (init n f) s ->
   exists cs s', run resp s cs = Some s' /\ all_exited s'.
